@@ -182,6 +182,8 @@ def bound_members(F, ctor, pi, depth=0):
         if x['k'] == 'init' and len(x.get('es', [])) == 1:
             x = ir.strip(x['es'][0])
         if i['t'] == 'member':
+            if x['k'] == 'un' and x['op'] == '&':
+                x = ir.strip(x['e'])          # a pointer member initialised with the parameter's address: the same alias
             if x['k'] == 'var' and x.get('vk') == 'param' and x.get('pi') == pi:
                 out.add((ctor.tkey, i['name']))
         elif i['t'] == 'base':
